@@ -64,8 +64,13 @@ def _case_step(cfg, state, velocity, forcing, steps, seed, backend):
     second = None
     if isinstance(steps, str):  # "2:single" / "2:zero": the second step starts from a re-loaded state
         steps, second = int(steps.split(":")[0]), steps.split(":")[1]
+    # references to the public arrays are taken ONCE, as IO registration and the flow-body interactors do
+    # (they keep views of velocity_field / eul_grid_forcing_field): the simulator has to keep working on
+    # these very arrays, not on re-bound copies
+    prim = simcfg.primary(sim)
+    vel_h = sim.velocity_field
+    forc_h = sim.eul_grid_forcing_field if (simcfg.is_ns(kind) and c["forcing"]) else None
     for step in range(steps):
-        prim = simcfg.primary(sim)
         if step == 1 and second is not None:
             # state in which field components are IDENTICALLY zero, on a simulator whose scratch and
             # stream-function arrays still hold the previous step's data
@@ -79,10 +84,10 @@ def _case_step(cfg, state, velocity, forcing, steps, seed, backend):
                 prim[...] = 0
                 prim[0] = keep
             if second == "zero" or prim.ndim != d:
-                sim.velocity_field[...] = 0 if second == "zero" else sim.velocity_field
+                vel_h[...] = 0 if second == "zero" else vel_h
         w0 = prim.astype(np.float64).copy()
-        u0 = sim.velocity_field.astype(np.float64).copy()
-        f0 = sim.eul_grid_forcing_field.astype(np.float64).copy() if (simcfg.is_ns(kind) and c["forcing"]) else None
+        u0 = vel_h.astype(np.float64).copy()
+        f0 = forc_h.astype(np.float64).copy() if forc_h is not None else None
         fs = simcfg.free_stream(c, seed + step) if c["stream"] else None  # c["stream_kind"] selects the alphabet member
         kw = {"free_stream_velocity": fs} if fs is not None else {}
         sim.time_step(dt=dt, **kw)
@@ -99,7 +104,7 @@ def _case_step(cfg, state, velocity, forcing, steps, seed, backend):
                 idx = np.unravel_index(np.nanargmax(dev / tol_w), dev.shape)
                 fails.append(Fail(f"{tag}:vorticity", "vorticity after one step differs from the documented operator sequence (reference implementation)",
                                   cell=[int(i) for i in idx], got=float(got_w[idx]), want=float(ref["vorticity"][idx]), tol=float(tol_w[idx]), **ctx))
-            got_u = sim.velocity_field.astype(np.float64)
+            got_u = vel_h.astype(np.float64)
             tol_u = 256 * eps * (ref["scale_u"] + 1e-300)
             devu = np.abs(got_u - ref["velocity"])
             if not np.all(np.isfinite(got_u)) or devu.max() > tol_u:
@@ -107,10 +112,10 @@ def _case_step(cfg, state, velocity, forcing, steps, seed, backend):
                 fails.append(Fail(f"{tag}:velocity", "velocity after one step differs from curl of the unbounded Poisson solution plus free stream (reference implementation)",
                                   cell=[int(i) for i in idx], got=float(got_u[idx]), want=float(ref["velocity"][idx]), tol=float(tol_u), **ctx))
             if c["forcing"]:
-                if np.any(sim.eul_grid_forcing_field != 0):
-                    fails.append(Fail(f"{tag}:forcing-not-reset", "body-forcing field is not identically zero on return", nonzero=int(np.count_nonzero(sim.eul_grid_forcing_field)), **ctx))
-                # next step of a 2-step history gets a fresh forcing
-                sim.eul_grid_forcing_field[...] = simcfg.forcing_pattern(forcing, d, c["shape"], max(1, c["width"]), seed + 1).astype(real_t)
+                if np.any(forc_h != 0) or np.any(sim.eul_grid_forcing_field != 0):
+                    fails.append(Fail(f"{tag}:forcing-not-reset", "body-forcing field (the array handed out before the step) is not identically zero on return", nonzero=int(np.count_nonzero(forc_h)), **ctx))
+                # next step of a 2-step history gets a fresh forcing, deposited through the retained reference
+                forc_h[...] = simcfg.forcing_pattern(forcing, d, c["shape"], max(1, c["width"]), seed + 1).astype(real_t)
         else:
             ref = flowstep.passive_step(w0, u0, dt, nu, dx)
             got = prim.astype(np.float64)
@@ -120,7 +125,7 @@ def _case_step(cfg, state, velocity, forcing, steps, seed, backend):
                 idx = np.unravel_index(np.nanargmax(dev / tol), dev.shape)
                 fails.append(Fail(f"{tag}:primary", "transported field after one step differs from ENO3 advection + explicit diffusion (reference implementation)",
                                   cell=[int(i) for i in idx], got=float(got[idx]), want=float(ref["primary"][idx]), tol=float(tol[idx]), **ctx))
-            if not np.array_equal(sim.velocity_field.astype(np.float64), u0):
+            if not np.array_equal(vel_h.astype(np.float64), u0) or not np.array_equal(sim.velocity_field.astype(np.float64), u0):
                 fails.append(Fail(f"{tag}:velocity-modified", "passive transport step modified the velocity field", **ctx))
     changed = bool(np.any(simcfg.primary(sim) != 0))
     return CaseResult(fails=fails, states=steps, transitions=steps, traces=steps, outcome=f"{kind}:{c['dtype']}:{state}:{changed}:{backend}:{second}", extra={"shape": c["shape"], "backend": backend})
